@@ -984,7 +984,7 @@ def minimize(term, kind, data, eng, tier):
         return _MINI[key]
     U = term[0]
     world = world_for(U)
-    pool = [(None, data)] + list(datasets(U, tier)[:20])
+    pool = list(datasets(U, tier)[:20]) + [(None, data)]  # canonical pool first, the triggering data set last
 
     def fails(t):
         if not valid_term(t):
